@@ -9,8 +9,13 @@
 //!  * tx/S2  back-to-back (E1 BFS): two UDP sockets + raw socket + inbound oversized echo
 //!           requests, interleaved with poll / poll_egress / ingress / device back-pressure.
 //!  * rx     (E2): all permutations (+ one duplicate, + overlapping retransmission, + two
-//!           interleaved datagrams) of fragment sets built by our own fragmenter, delivered to
+//!           interleaved datagrams, + two datagrams with the same id/source/protocol but
+//!           different destinations) of fragment sets built by our own fragmenter, delivered to
 //!           an interface with a bound udp / raw socket.
+//!
+//! Every call into smoltcp made by a sweep case / BFS step / rx case runs under catch_unwind: a
+//! panic is reported as `C12/panic/<part>/<file>` with the failing case as replay, and the
+//! remaining cases are still executed.
 //!
 //! Oracles never use `smoltcp::wire`; `Interface::verif_digest` is used for BFS fingerprints only.
 
@@ -133,6 +138,15 @@ impl Net {
     }
 }
 
+/// Stable panic site for signatures: `core::panic_site()` (file without line), additionally cut
+/// at the crate's `src/` so that the signature does not depend on where the subject tree lives.
+pub(crate) fn stable_site(site: &str) -> String {
+    match site.rfind("/src/") {
+        Some(i) => site[i + 1..].to_string(),
+        None => site.to_string(),
+    }
+}
+
 pub(crate) fn medium_name(eth: bool) -> &'static str {
     if eth {
         "ethernet"
@@ -160,7 +174,7 @@ pub fn run(tier: Tier) -> i32 {
     rx::run_rx(&mut rep, tier);
     rep.cov(
         "rule",
-        json!("tx/S1: every (medium, MTU, UDP payload length) listed in s1.domain, one datagram each on a fresh interface; tx/S1b: every ordered pair of (kind,len) listed in s1b.domain; tx/S2: BFS over event sequences (alphabet in s2.alphabet) up to the stated depth with state merging on verif_digest+sockets+device+model; rx: every permutation of every fragment set listed in rx.domain (plus one-duplicate multiset permutations, overlapping retransmission mixes, two interleaved datagrams). 'states' = distinct inputs (sweeps) + distinct BFS states; 'transitions' = executions on the real stack (cases / BFS transitions)"),
+        json!("tx/S1: every (medium, MTU, UDP payload length) listed in s1.domain, one datagram each on a fresh interface; tx/S1b: every ordered pair of (kind,len) listed in s1b.domain; tx/S2: BFS over event sequences (alphabet in s2.alphabet) up to the stated depth with state merging on verif_digest+sockets+device+model; rx: every permutation of every fragment set listed in rx.domain (plus one-duplicate multiset permutations, overlapping retransmission mixes, two interleaved datagrams, two same-key datagrams for different destinations). 'states' = distinct inputs (sweeps) + distinct BFS states; 'transitions' = executions on the real stack (cases / BFS transitions)"),
     );
     rep.finish()
 }
